@@ -149,7 +149,7 @@ def hist_implicit(rng):
 
 
 def histories(rng, tier):
-    n = 100 if tier == 'quick' else 1500
+    n = 300 if tier == 'quick' else 1500
     out = []
     for _ in range(n):
         r = rng.random()
